@@ -367,7 +367,8 @@ def run(ck):
                    "Import ListNotations.\nLocal Open Scope string_scope.\nLocal Open Scope N_scope.\n"
                    "Definition cases : list hcase := [\n  "
                    + ";\n  ".join(case_coq(c) for c in part) + "\n].\n"
-                   "Definition M := Eval vm_compute in results cases.\nPrint M.\n")
+                   "Definition M := Eval vm_compute in results cases.\nPrint M.\n"
+                   "Definition S := Eval vm_compute in scopes cases.\nPrint S.\n")
             return s, ck.coq_eval("hist_%d" % (s // shard), txt)
 
         t = time.time()
@@ -375,11 +376,13 @@ def run(ck):
             results = list(ex.map(evaluate, range(0, len(ok_cases), shard)))
         ck.timings["coq_eval_wall"] = round(time.time() - t, 2)
         nmis = 0
+        inscope = 0
         for s, (rc, out) in results:
             got = vlib.parse_coq_list_of_nat(out, "M") if rc == 0 else None
             if got is None:
                 ck.broken.append({"what": "correspondence evaluation failed", "detail": out[-1500:]})
                 break
+            inscope += sum(vlib.parse_coq_list_of_nat(out, "S") or [])
             for j, m in enumerate(got):
                 if m == 0:
                     continue
@@ -395,6 +398,10 @@ def run(ck):
                                  {"history": brief(c, m - 1), "failing_step": m - 1,
                                   "model": "Caco/Build.v replayed by vm_compute disagrees"})
         ck.coverage["correspondence_histories"] = len(ok_cases)
+        ck.coverage["histories_in_theorem_scope"] = inscope
+        if inscope < len(ok_cases) and not ck.broken:
+            ck.notes.append("%d generated histories leave the scope of the theorems (hist_in_scope)"
+                            % (len(ok_cases) - inscope))
         ck.coverage["correspondence_mismatches"] = nmis
     elif cases and not model_ok:
         ck.broken.append({"what": "model does not compile; correspondence not evaluated"})
